@@ -175,7 +175,7 @@ fn main() {
             if dual { "{\"::ffff:127.0.0.1\":\"127.0.0.1\",\"::ffff:127.0.0.70\":\"127.0.0.70\"}" } else { "{\"127.0.0.1\":\"127.0.0.1\",\"127.0.0.70\":\"127.0.0.70\"}" }));
         // (a server name the endpoint has no host for falls back to the main host on QUIC: whether it is served is left
         // open, but a session that is opened is an HTTP/3 session like any other)
-        let kinds = vec!["tunnel-h3", "tunnel-h3", "tunnel-h3-refused", "tunnel-h3-noauth", "get-h3", "ping-h3", "denied-source", "silent", "garbage", "tunnel-h3-unknown-sni"];
+        let kinds = vec!["tunnel-h3", "tunnel-h3", "tunnel-h3-refused", "tunnel-h3-noauth", "get-h3", "ping-h3", "denied-source", "denied-source-ping", "silent", "garbage", "tunnel-h3-unknown-sni"];
         // every kind of visit meets every ClientHello size class once in hello_fillers().len() rounds; the multi-packet
         // hellos alternate between leaving in order and tail first
         let fillers = hello_fillers();
@@ -204,6 +204,8 @@ fn main() {
                 "get-h3" => (visit(ep.addr, me, "localhost", Some(("GET", "http://_check/", true)), quiet, shape), true),
                 "ping-h3" => (visit(ep.addr, me, "ping.localhost", Some(("GET", "https://ping.localhost/", false)), quiet, shape), true),
                 "denied-source" => (visit(ep.addr, "127.0.0.70".parse().unwrap(), "localhost", Some(("CONNECT", &target, true)), quiet, shape), true),
+                // the rules are about the connection, not about the host it names: a denied peer is denied on every channel
+                "denied-source-ping" => (visit(ep.addr, "127.0.0.70".parse().unwrap(), "ping.localhost", Some(("GET", "https://ping.localhost/", false)), quiet, shape), true),
                 "silent" => (visit(ep.addr, me, "localhost", None, quiet, shape), false),
                 _ => {
                     let s = std::net::UdpSocket::bind("127.0.0.1:0").unwrap();
